@@ -146,8 +146,9 @@ def generate(rng, tier):
             ops.append({"op": "sleep", "d": rng.choice(DELAYS)})
         for _ in range(rng.choice([1, 1, 2])):
             period = rng.choice(PERIODS) if rng.random() < 0.95 else -rng.choice([0.5, 1])
+            # (period + 2**-30: a body that is longer than the period by next to nothing)
             rel = [abs(period) / 2, abs(period), abs(period), abs(period) + 0.25,
-                   2 * abs(period)]
+                   2 * abs(period), abs(period) + 2 ** -30]
             bodies = [rng.choice(BODIES + rel) for _ in range(rng.randint(0, 5))]
             op = {"op": "ticker", "kind": rng.choice(["interval", "interval", "delay"]),
                   "p": period, "bodies": bodies}
